@@ -235,9 +235,49 @@ class dynsec_init:
     may_raise = ["ELFError", "OverflowError", "TypeError", "AttributeError"]
 
 
-_assumed_section_ctor("elftools/elf/relocation.py", "RelocationSection", ["C01"])
-_assumed_section_ctor("elftools/elf/relocation.py", "RelrRelocationSection", ["C01"])
-_assumed_section_ctor("elftools/elf/sections.py", "AttributesSection", ["C01"])
+@contract("elftools/elf/relocation.py", "RelocationSection.__init__", props=["C01", "C08"])
+class relsec_init:
+    """the section view of a relocation table: the table is the section's extent, its flavour is the section type (REL /
+    RELA), the entry size is that of the flavour's structure for the class; any other type or entry size is rejected"""
+    params = dict(self=Obj('RelocationSection'), header=ShdrT, name=Str, elffile=ELFFileT())
+    requires = ["elffile.structs.elfclass == elffile.elfclass"]
+    sets = dict(header="header", name="name", elffile="elffile", stream="elffile.stream", structs="elffile.structs",
+                _offset="header.sh_offset", _size="header.sh_size", _is_rela="header.sh_type == 'SHT_RELA'",
+                entry_size="SZ('Elf_Rel', elffile.elfclass) + ((4 if elffile.elfclass == 32 else 8) if header.sh_type == 'SHT_RELA' else 0)")
+    raises = {"ELFError": "header.sh_type not in ('SHT_REL', 'SHT_RELA') or header.sh_entsize != SZ('Elf_Rel', elffile.elfclass) +"
+                          " ((4 if elffile.elfclass == 32 else 8) if header.sh_type == 'SHT_RELA' else 0) or"
+                          " ((header.sh_flags // 0x800) % 2 == 1 and header.sh_offset + SZ('Elf_Chdr', elffile.elfclass) > len(elffile.stream.B))"}
+
+
+@contract("elftools/elf/relocation.py", "RelrRelocationTable.__init__", props=["C01", "C08"])
+class relrtab_init:
+    inline = True
+
+
+@contract("elftools/elf/relocation.py", "RelrRelocationSection.__init__", props=["C01", "C08"])
+class relrsec_init:
+    """the section view of a RELR table: the section's extent, entries of the class's word size; another sh_entsize is
+    rejected; nothing is expanded yet"""
+    params = dict(self=Obj('RelrRelocationSection'), header=ShdrT, name=Str, elffile=ELFFileT())
+    requires = ["elffile.structs.elfclass == elffile.elfclass"]
+    sets = dict(header="header", name="name", elffile="elffile", stream="elffile.stream", structs="elffile.structs",
+                _elffile="elffile", _offset="header.sh_offset", _size="header.sh_size", _entrysize="SZ('Elf_Relr', elffile.elfclass)",
+                _cached_relocations="None")
+    raises = {"ELFError": "header.sh_entsize != SZ('Elf_Relr', elffile.elfclass) or"
+                          " ((header.sh_flags // 0x800) % 2 == 1 and header.sh_offset + SZ('Elf_Chdr', elffile.elfclass) > len(elffile.stream.B))"}
+
+
+@contract("elftools/elf/sections.py", "AttributesSection.__init__", props=["C01", "C20"])
+class attrsec_init:
+    """a build-attributes section starts with the format version byte 'A'; the vendor subsections start right after it"""
+    params = dict(self=Obj('AttributesSection'), header=ShdrT, name=Str, elffile=ELFFileT(), subsection=Any)
+    requires = ["elffile.structs.elfclass == elffile.elfclass"]
+    sets = dict(header="header", name="name", elffile="elffile", stream="elffile.stream", structs="elffile.structs",
+                subsection="subsection", subsec_start="header.sh_offset + 1")
+    raises = {"ELFError": "header.sh_offset + 1 > len(elffile.stream.B) or P('Elf_byte', elffile.stream.B, header.sh_offset) != 65 or"
+                          " ((header.sh_flags // 0x800) % 2 == 1 and header.sh_offset + SZ('Elf_Chdr', elffile.elfclass) > len(elffile.stream.B))"}
+
+
 
 
 @contract("elftools/elf/dynamic.py", "DynamicSegment.__init__", props=["C01"])
